@@ -1337,10 +1337,20 @@ class ContactHandler(Messenger, dbus.service.Object):
         Messenger.recv_xfer_data(self, transfer_id, flags, data, ext_items)
 
         if flags & messages.TransferSegment.Flag.START:
-            if self._rx_tmp is not None or transfer_id in self._rx_map:
-                # one transfer at a time, and each ID only once: the one
-                # in progress (or waiting to be popped) is not replaced
+            if transfer_id in self._rx_map:
+                # each ID only once: the bundle waiting to be popped
+                # is not replaced
                 raise RejectError(messages.RejectMsg.Reason.UNEXPECTED)
+            if self._rx_tmp is not None:
+                # the sender gave up on the transfer in progress
+                # (e.g. after it was refused)
+                item = self._rx_tmp
+                self._rx_teardown()
+                self.recv_bundle_finished(
+                    str(item.transfer_id),
+                    item.file.tell(),
+                    'abandoned'
+                )
             self._rx_setup(transfer_id, None)
 
         elif self._rx_tmp is None or self._rx_tmp.transfer_id != transfer_id:
